@@ -135,6 +135,17 @@ class HistPlan(Plan):
 
 class C01(HistPlan):
     prop = "C01"
+
+    def jobs(self, tier, seed):
+        j = HistPlan.jobs(self, tier, seed)
+        p = ("C01",)
+        # faults whose symptom is a lifetime violation: a destructor that panics at the last release; a lying
+        # ExactSizeIterator accepted in release builds (partial destruction, wrong layout at release)
+        j += simple_jobs("dbg", ["faults", "seed=%d" % seed, "part=drop"], p)
+        j += simple_jobs("rel", ["faults", "seed=%d" % seed, "part=drop"], p)
+        j += simple_jobs("rel", ["faults", "seed=%d" % seed, "part=iter"], p)
+        j += [Job("asan", ["faults", "seed=%d" % seed, "part=drop", "shadow=0"], san_props=p, crash_props=p)]
+        return j
     assumptions = COMMON_ASSUME + [
         "sequences are sampled (seeded), not enumerated; slice/str payloads are covered by the ctor/shapes engines, thin handles by C10",
         "ASan/memcheck miss intra-object and far out-of-bounds accesses; Miri closes that gap only on its smaller workloads",
@@ -262,6 +273,10 @@ class C02(Plan):
             j += conc_jobs("asan", "clonedrop", 4000, seed, p, delay=2, nshards=2, first0=4 * 10 ** 6)
             j += miri_conc_jobs("clonedrop", 64, 6, seed, p, first0=5 * 10 ** 6, extra_flags=PREEMPT)
             j += forced_jobs("clonedrop", seed, p, big=False)
+            for scen in ("cow", "unwraprace"):
+                j += conc_jobs("dbg", scen, 48, seed, p, delay=0, nshards=1, first0=30 * 10 ** 6, forced=True)
+                j += conc_jobs("asan", scen, 24, seed, p, delay=0, nshards=1, first0=31 * 10 ** 6, forced=True)
+                j += miri_conc_jobs(scen, 8, 6, seed, p, first0=32 * 10 ** 6, extra_flags=PREEMPT)
         else:
             j += conc_jobs("dbg", "clonedrop", 300000, seed, p, delay=1, nshards=8)
             j += conc_jobs("rel", "clonedrop", 300000, seed, p, delay=2, nshards=8, first0=10 ** 6)
@@ -271,6 +286,10 @@ class C02(Plan):
             j += conc_jobs("asan", "clonedrop", 100000, seed, p, delay=2, nshards=8, first0=5 * 10 ** 6, timeout=3000)
             j += miri_conc_jobs("clonedrop", 2048, 6, seed, p, first0=7 * 10 ** 6, extra_flags=PREEMPT)
             j += forced_jobs("clonedrop", seed, p, big=True)
+            for scen in ("cow", "unwraprace"):
+                j += conc_jobs("dbg", scen, 2000, seed, p, delay=0, nshards=8, first0=30 * 10 ** 6, forced=True, timeout=3000)
+                j += conc_jobs("asan", scen, 800, seed, p, delay=0, nshards=8, first0=31 * 10 ** 6, forced=True, timeout=3000)
+                j += miri_conc_jobs(scen, 128, 6, seed, p, first0=32 * 10 ** 6, extra_flags=PREEMPT)
         return j
 
     def coverage(self, counts, sets, samples, other, results):
@@ -369,6 +388,9 @@ class C03(HistConc):
         j += conc_jobs("tsan", "cow", 200000 if big else 10000, seed, p, delay=1, nshards=8 if big else 2, first0=11 * 10 ** 6)
         j += miri_conc_jobs("cow", 512 if big else 24, 6, seed, p, first0=12 * 10 ** 6, extra_flags=PREEMPT)
         j += simple_jobs("dbg", ["faults", "seed=%d" % seed, "part=clone"], p)
+        # the deprecated Arc::write / as_mut_slice gate, in debug and in release builds
+        j += simple_jobs("dbg", ["uninit", "seed=%d" % seed, "maxlen=8"], p)
+        j += simple_jobs("rel", ["uninit", "seed=%d" % seed, "maxlen=8"], p)
         return j
     assumptions = COMMON_ASSUME + [
         "schedule half: Miri's race detector / ThreadSanitizer decide whether every former sharer's access happens-before the granted write; "
@@ -411,6 +433,14 @@ class C08(HistConc):
     prop = "C08"
     scen = "cow"
     per_cycle = 6
+
+    def jobs(self, tier, seed):
+        j = HistConc.jobs(self, tier, seed)
+        p = ("C08",)
+        # a panicking Clone inside make_mut / make_unique / OffsetArc::make_mut; payloads without drop glue
+        j += simple_jobs("dbg", ["faults", "seed=%d" % seed, "part=clone"], p)
+        j += simple_jobs("dbg", ["faults", "seed=%d" % seed, "part=drop"], p)
+        return j
     assumptions = COMMON_ASSUME + ["schedule half: race detectors decide whether an in-place write raced a reader; readers also compare every read with their snapshot"]
 
     def coverage(self, counts, sets, samples, other, results):
@@ -447,6 +477,15 @@ class C09(HistConc):
     prop = "C09"
     scen = "unwraprace"
     per_cycle = 6
+
+    def jobs(self, tier, seed):
+        j = HistConc.jobs(self, tier, seed)
+        p = ("C09",)
+        # a panicking Clone inside unwrap_or_clone; payloads without drop glue (no bit-copy shortcuts)
+        j += simple_jobs("dbg", ["faults", "seed=%d" % seed, "part=clone"], p)
+        j += simple_jobs("dbg", ["faults", "seed=%d" % seed, "part=drop"], p)
+        j += simple_jobs("rel", ["faults", "seed=%d" % seed, "part=drop"], p)
+        return j
     assumptions = COMMON_ASSUME + ["schedule half: identity registry decides 'handed out at most once / destroyed exactly once'; race detectors decide ordering"]
 
     def coverage(self, counts, sets, samples, other, results):
@@ -486,8 +525,13 @@ class C10(Plan):
             j += thin_jobs("nostd", 400, 220, seed, p, p, nshards=2, first0=2 * 10 ** 6)
             j += thin_jobs("asan", 320, 220, seed, p, p, nshards=4, first0=3 * 10 ** 6, extra=["shadow=0"])
             j += miri_hist_jobs(12, 80, seed, p, tb_every=4, engine="thin")
+            # ThinArc constructors fed by lying ExactSizeIterators, in debug and release builds
+            j += simple_jobs("dbg", ["faults", "seed=%d" % seed, "part=iter"], p)
+            j += simple_jobs("rel", ["faults", "seed=%d" % seed, "part=iter"], p)
         else:
-            j = thin_jobs("dbg", 100000, 300, seed, p, p, nshards=16)
+            j = simple_jobs("dbg", ["faults", "seed=%d" % seed, "part=iter", "big"], p)
+            j += simple_jobs("rel", ["faults", "seed=%d" % seed, "part=iter", "big"], p)
+            j += thin_jobs("dbg", 100000, 300, seed, p, p, nshards=16)
             j += thin_jobs("rel", 60000, 300, seed, p, p, nshards=16, first0=10 ** 6)
             j += thin_jobs("off", 20000, 300, seed, p, p, nshards=8, first0=5 * 10 ** 6)
             j += thin_jobs("nostd", 20000, 300, seed, p, p, nshards=8, first0=2 * 10 ** 6)
@@ -698,7 +742,7 @@ class C06(Plan):
 def asan_faults(seed, p, extra):
     """The iterator part leaves the documented half-built block behind: leak detection off there, on elsewhere."""
     j = []
-    for part in ("clone", "closure", "cmp"):
+    for part in ("clone", "closure", "cmp", "drop"):
         j.append(Job("asan", ["faults", "seed=%d" % seed, "part=%s" % part, "shadow=0"] + extra, san_props=p, crash_props=p))
     j.append(Job("asan", ["faults", "seed=%d" % seed, "part=iter", "shadow=0"] + extra, san_props=p, crash_props=p,
                  env={"ASAN_OPTIONS": "detect_leaks=0:halt_on_error=1:exitcode=98"}))
@@ -720,7 +764,7 @@ class C07(Plan):
             j += simple_jobs("rel", ["faults", "seed=%d" % seed], p)
             j += simple_jobs("nostd", ["faults", "seed=%d" % seed, "part=iter"], p)
             j += asan_faults(seed, p, [])
-            for part, n in (("iter", 5), ("clone", 4), ("closure", 3), ("cmp", 7)):
+            for part, n in (("iter", 5), ("clone", 4), ("closure", 3), ("cmp", 7), ("drop", 5)):
                 for only in range(n):
                     j += [Job("miri", ["faults", "seed=%d" % seed, "part=%s" % part, "small", "only=%d" % only], san_props=p, crash_props=p, miri_seed=seed * 4096 + len(j),
                               miri_extra="-Zmiri-ignore-leaks" if part == "iter" else "", tb=(only % 3 == 2), timeout=2400)]
@@ -728,12 +772,12 @@ class C07(Plan):
             for m in ("dbg", "rel", "off", "nostd"):
                 j += simple_jobs(m, ["faults", "seed=%d" % seed, "big"], p)
             j += asan_faults(seed, p, ["big"])
-            for part in ("clone", "closure", "cmp"):
+            for part in ("clone", "closure", "cmp", "drop"):
                 j += simple_jobs("memcheck", ["faults", "seed=%d" % seed, "part=%s" % part], p, timeout=3000)
             j += [Job("memcheck", ["faults", "seed=%d" % seed, "part=iter", "shadow=0"], san_props=p, crash_props=p, timeout=3000,
                       valgrind_args=["--leak-check=no"])]
             for tb in (False, True):
-                for part, n in (("iter", 5), ("clone", 4), ("closure", 3), ("cmp", 7)):
+                for part, n in (("iter", 5), ("clone", 4), ("closure", 3), ("cmp", 7), ("drop", 5)):
                     for only in range(n):
                         j += [Job("miri", ["faults", "seed=%d" % seed, "part=%s" % part, "only=%d" % only], san_props=p, crash_props=p, miri_seed=seed * 4096 + len(j),
                                   miri_extra="-Zmiri-ignore-leaks" if part == "iter" else "", tb=tb, timeout=3000)]
@@ -753,7 +797,7 @@ class C07(Plan):
 
     def required(self, counts, sets, other):
         return need(counts, ["faults.iter.propagated", "faults.iter.completed", "faults.lie.propagated", "faults.clone.propagated", "faults.closure.runs",
-                             "faults.cmp.propagated", "faults.alloc.aborted-via-alloc-error"])
+                             "faults.cmp.propagated", "faults.drop.runs", "faults.nodrop.runs", "faults.alloc.aborted-via-alloc-error"])
 
 
 
